@@ -300,7 +300,8 @@ ADDED = {
            " Reaction crossing_dpr (the peer's own DPR crosses the node's) and the oracle that a connection is not closed before its DPA while the wait timeout runs."
            " stop() may be called while the node's thread is in the middle of its reconnect pass (held at the socket creation of a due dial until the shutdown has been announced).",
     "C19": "Kind socket_creation_fails: reconnect attempts that die before a socket exists."
-           " A worker of a closed connection that still runs 15 s after being told to stop ends the kind with a witness.",
+           " A worker of a closed connection that still runs 15 s after being told to stop ends the kind with a witness."
+           " Kind cer_handled_after_conn_gone: the CER is handled after the I/O thread has removed the connection (a delay only).",
     "C20": "The application object is re-registered with a node of another identity after every fourth command; node-built "
            "answers are read off the wire for identifiers 0 and 2^32-1."
            " Shard registered: user-defined commands (pair with default / own type_factory, no subclasses, subclasses defined after register) x every route x 256 flag octets.",
